@@ -44,6 +44,45 @@ func (eng *Engine) pureFn(fn *ssa.Function) bool {
 	if eng.pureNames[name] {
 		return true
 	}
+	if v, ok := eng.pureCache.Load(fn); ok {
+		return v.(bool)
+	}
+	// small single-block functions made only of pure instructions (getters such as HeightView.Height)
+	res := false
+	if len(fn.Blocks) == 1 && len(fn.Blocks[0].Instrs) <= 12 && fn.Recover == nil {
+		res = true
+		eng.pureCache.Store(fn, false) // recursion guard
+		for _, in := range fn.Blocks[0].Instrs {
+			switch in := in.(type) {
+			case *ssa.Return:
+			case *ssa.Call:
+				callee, ok := in.Call.Value.(*ssa.Function)
+				if in.Call.Method != nil || !ok || !eng.pureFn(callee) {
+					res = false
+				}
+			case *ssa.Jump:
+				res = false
+			default:
+				if !pureInstrNoCall(in) {
+					res = false
+				}
+			}
+		}
+	}
+	eng.pureCache.Store(fn, res)
+	return res
+}
+
+func pureInstrNoCall(in ssa.Instruction) bool {
+	switch in := in.(type) {
+	case *ssa.DebugRef, *ssa.ChangeType, *ssa.ChangeInterface, *ssa.Extract, *ssa.Field,
+		*ssa.FieldAddr, *ssa.IndexAddr, *ssa.Index, *ssa.Slice, *ssa.MakeInterface, *ssa.Convert:
+		return true
+	case *ssa.BinOp:
+		return in.Op != token.QUO && in.Op != token.REM
+	case *ssa.UnOp:
+		return in.Op != token.ARROW
+	}
 	return false
 }
 
